@@ -36,7 +36,7 @@ FAMILY = {
                 extra_gen=["MC_GenClusterRetry.cfg"], gen_split=True),
     "C03": dict(mc="MC_Fault", gen="MC_GenFault", quick=200, thorough=2000, drivers=["secret", "configmap", "memory"],
                 sweep=(6, 60)),
-    "C06": dict(mc="MC_Dry", gen="MC_GenDry", quick=260, thorough=2000, drivers=["secret", "memory", "configmap"]),
+    "C06": dict(mc="MC_Dry", gen="MC_GenDry", quick=260, thorough=2000, drivers=["secret", "memory", "configmap"], cli=2),
     "C07": dict(mc="MC_Own", gen="MC_GenOwn", quick=260, thorough=2000, drivers=["secret", "memory", "configmap"]),
     "C09": dict(mc="MC_Conc", gen="MC_GenConc", quick=150, thorough=1500, drivers=["secret", "memory", "configmap"],
                 extra_mc=["MC_ConcDep.cfg"], extra_mc_thorough=["MC_ConcFault.cfg"],
@@ -232,7 +232,7 @@ def classify(viol, evs, listed):
 
 # ---------------------------------------------------------------------------------------
 
-def assign_drivers(raws, drivers, prefix):
+def assign_drivers(raws, drivers, prefix, cli=0):
     scs = []
     for i, r in enumerate(raws):
         drv = drivers[i % len(drivers)]
@@ -240,7 +240,15 @@ def assign_drivers(raws, drivers, prefix):
                     for st in r["steps"])
         if drv == "memory" and risky:
             drv = "secret"      # memory storage lives in the dying process: no crash / storage-fault replay on it
-        scs.append(vlib.tlc_scenario_to_harness(r, "%s%d" % (prefix, i), drv))
+        sc = vlib.tlc_scenario_to_harness(r, "%s%d" % (prefix, i), drv)
+        # a share of the scenarios is driven through the command line (pkg/cmd: flag parsing and wiring)
+        if cli and (i % cli == 0) and "sched" not in sc:
+            for st in sc["steps"]:
+                if "op" in st:
+                    st["via"] = "cli"
+                    st["flags"].pop("cancelled", None)
+                    st["flags"].pop("postRender", None)
+        scs.append(sc)
     return scs
 
 
@@ -383,7 +391,7 @@ def run(pid, tier, seed, replay=None):
         raws += r
     if len(raws) < 10:
         raise Inconclusive("scenario generator produced only %d scenarios" % len(raws))
-    scs = assign_drivers(raws, fam["drivers"], "s")
+    scs = assign_drivers(raws, fam["drivers"], "s", cli=fam.get("cli", 4))
     tf, rdt = vlib.run_scenarios(hv, scs, d)
     events = vlib.load_trace(tf)
     notes = vlib.notes_of(events)
@@ -502,6 +510,7 @@ def run(pid, tier, seed, replay=None):
         "distinct_observed_end_states": distinct_end,
         "fault_plans": planned, "fault_plans_that_hit_a_call": hit, "fault_hits_on_a_sibling_call_of_the_same_batch": drift,
         "known_findings_observed": dict(res["known"]),
+        "scenarios_driven_through_the_command_line": sum(1 for s_ in scs if any(st.get("via") == "cli" for st in s_["steps"])),
         "schedules_not_followed_by_the_real_code": sched_div,
         "fault_sweep_scenarios_every_call_position": sweep_n,
         "race_detector": race,
